@@ -56,6 +56,10 @@ class Fixtures(dict):
             "ec_ops": lambda: A.jkey({**scen.key("P-256", 2), "key_ops": ["sign", "verify"]}, "dict"),     # declares its operations in a list          # longer than the block size of every HS* hash
             # a key whose kid is the empty string (a legal kid), and a set that holds it
             "oct_emptykid": lambda: A.jkey({**scen.key("oct32", 3), "kid": ""}, "dict"),
+            # two keys imported from their native encodings with the ONE parameters dict the application keeps
+            "twin_params": lambda: {"use": "sig"},
+            "twin_a": lambda: A.jkey(scen.key("P-256", 5), "pem", params=self["twin_params"]),
+            "twin_b": lambda: A.jkey(scen.key("P-256", 6), "pem", params=self["twin_params"]),
             "sender1pu": lambda: A.jkey(scen.key("X25519", 5), "dict"),      # one ECDH-1PU sender talking to several kid-less peers
             "rcpt1pu": lambda: A.jkey(scen.key("X25519", 6), "dict"),
             "set": lambda: KeySet([A.jkey(scen.key("oct32", 1), "bytes"), A.jkey(scen.key("oct32", 2), "bytes")]),
@@ -77,7 +81,7 @@ def fixtures(eager=()):
     return f
 
 
-ALL_FIXTURES = ["oct", "ec", "ec_pub", "rsa", "ed", "x", "oct16", "octlong", "ec_ops", "oct_emptykid", "sender1pu", "rcpt1pu", "set", "ecset", "jwsreg", "jwereg", "jwereg_custom", "jwsreg_custom"]
+ALL_FIXTURES = ["oct", "ec", "ec_pub", "rsa", "ed", "x", "oct16", "octlong", "ec_ops", "oct_emptykid", "twin_params", "twin_a", "twin_b", "sender1pu", "rcpt1pu", "set", "ecset", "jwsreg", "jwereg", "jwereg_custom", "jwsreg_custom"]
 
 
 def ref_token(alg, kind, which=0, kid=None, payload=PT, bad=False):
@@ -273,6 +277,10 @@ def make_ops():
     add("as_dict [oct key whose kid is the empty string]", lambda f, d: ("export", tuple(sorted(f["oct_emptykid"].as_dict().items()))))
     add("verify HS256 naming the empty kid [key set made around the key whose kid is the empty string]",
         lambda f, d: obs_verify(call(lambda: jws.deserialize_compact(ref_token("HS256", "oct32", 3, kid=""), KeySet([f["oct_emptykid"], A.jkey({**K("oct32", 4), "kid": "other"}, "dict")])))))
+    twin_tp = rjwk.thumbprint(rjwk.public_of(K("P-256", 5)))
+    add("as_dict public [first of two keys made with one parameters dict]", lambda f, d: ("export", tuple(sorted((k, str(v)) for k, v in f["twin_a"].as_dict(private=False).items() if (k, v) != ("kid", twin_tp)))))
+    add("public export of a key set made around the two keys made with one parameters dict",
+        lambda f, d: ("export", json.dumps(KeySet([f["twin_a"], f["twin_b"]]).as_dict(private=False), sort_keys=True)))
     # registering the built-in algorithms again is what a second import path, a plugin or a reloader does; the outcome of it is nothing
     add("register the built-in JWS algorithms again", lambda f, d: ("registered", jws.register_algorithms() is None))
     add("jwt.encode HS256 [oct key]", lambda f, d: obs_sign(call(jwt.encode, {"alg": "HS256"}, {"iss": "joe"}, f["oct"]), K("oct32")))
